@@ -15,7 +15,8 @@ class C02(PropertyCheck):
             "independent Python writer, and parse -> re-serialize must reproduce it; the whole case file is additionally run in fresh "
             "processes (new hash seeds) and all images compared. Non-trivial = content with >= 2 labelled addresses or >= 2 strings; "
             "distinct = distinct case line.")
-    assumptions = ["A-codec; big-endian label names from ASCII + kana (String order = encoded byte order)",
+    assumptions = ["A-codec (lossless Shift-JIS names); the big-endian label order of the model takes the sort key of every name from the "
+                   "library's own decoder (case-line group K, gen/namekeys.py) - no restriction on big-endian names",
                    "std RandomState gives every HashMap instance its own seed: every archive in every process has its own iteration order"]
 
     def generate(self, rng, tier):
@@ -26,7 +27,7 @@ class C02(PropertyCheck):
             c = barandom.random_content(rng, e, max_size=rng.choice([8, 16, 32, 64, 128]), cstrings=False)
             # stress: equal buckets at several addresses, names equal to strings
             if rng.random() < 0.5 and len(c.data) >= 8:
-                name = rng.choice(barandom.ORDER_SAFE[:4] + [b"L"])
+                name = rng.choice(barandom.ASCII_STRS[:4] + barandom.ORDER_STRS[:4] + barandom.KANA_STRS[:2] + [b"L"])
                 for a in rng.sample(range(0, len(c.data) + 1), min(3, len(c.data) + 1)):
                     c.lab[a] = [name] if rng.random() < 0.7 else [name, b"Z"]
             for k in range(3):
@@ -107,6 +108,9 @@ MANIFEST = dict(
          "Model tied to /repo on every run: byte-exact comparison of the extracted model with the real library on shuffled API histories, "
          "an independent Python canonical writer as oracle, images compared across fresh processes, parse -> re-serialize identity.",
     note=TB + "Modelled, not verified: HashMap (association lists in arbitrary order), IndexMap, stable sort_by (A-std); strings are "
-              "Shift-JIS encoded bytes, label-name order = byte order (A-codec, ASCII+kana names in generated big-endian archives).",
+              "Shift-JIS encoded bytes (A-codec). Big-endian label order: the library compares names as Strings (scalars of the decoded names); "
+              "serialize_k / canonical take that sort key as a parameter kf, the theorems hold for every kf (C02_serialize_is_canonical: kf injective on "
+              "the names, or distinct label addresses; C02_example_key_matters is the reviewers' witness) and every run passes the library's own decoding "
+              "of every big-endian name to the extracted model (case-line group K) - no restriction on names.",
     technique="Coq proof (sorted permutations of a list with an antisymmetric total order are equal; permutation invariance of serialize) + extracted-model differential check + multi-process determinism run",
     ref="DESIGN.md section 2 (C02)")
